@@ -3,7 +3,9 @@ mod arr;
 mod cost;
 mod engine;
 mod props;
+mod sim_uni;
 mod supply_ref;
+mod tasks;
 
 use engine::Tier;
 
